@@ -77,7 +77,7 @@ def gen_case(rnd, force_all=False, force_shared=False):
                 m = maxm.get(s, 1)
                 x[s] = rnd.choice([0, max(m - 1, 0), m, m + 1, rnd.randint(0, 6), rnd.randint(1, 6)])
             else:
-                x[s] = float("%.6g" % rnd.uniform(0, 50)) if rnd.random() < 0.9 else 0.0
+                x[s] = float("%.6g" % rnd.choice([rnd.uniform(0, 50), rnd.uniform(0, 4)])) if rnd.random() < 0.9 else 0.0
         pts.append({"x": x, "V": gen.nice(rnd, 0.05, 50), "t": float("%.3g" % rnd.uniform(0, 20)), "kind": kind})
     return {"species": species, "x0": {s: 1 for s in species}, "params": params, "reactions": rxns, "rules": [],
             "points": pts, "route": rnd.choice(["ctor", "incremental", "icd"]),
@@ -211,8 +211,13 @@ def evaluate_pass(case, M, state, C, cells, viol, S, hist):
             full = all(pt["x"][s] >= n for s, n in need.items())
             for mode in ref.MODES:
                 if mode in ("stoch", "stochvol") and repeats and pt["kind"] != "int":
-                    C["skipped_real_falling_factorial"] += 1
-                    continue
+                    # real-valued counts: with s >= m every factor of s(s-1)...(s-m+1) is positive and the product is the only
+                    # reading; with s <= m-1 "fewer than m copies are present" and the rate is zero.  Only the window m-1 < s < m
+                    # (fewer than m copies, yet all factors positive) is left open by the statement and not asserted.
+                    mult = Counter(ref.ma_multiset(r))
+                    if any(m_ > 1 and m_ - 1 < pt["x"][s_] < m_ for s_, m_ in mult.items()):
+                        C["skipped_real_falling_factorial"] += 1
+                        continue
                 exp = ref.rate(r, pt["x"], pdict, V, mode, t)
                 if exp > 0 and not close(exp, ref.pval(r["fields"]["k"], pdict)):
                     state["nontrivial"] = True
